@@ -76,6 +76,12 @@ def with_hands(k):
                     # every seat that sees dummy (declarer who plays it, and both defenders): the set offered from dummy's hand
                     # must be the follow-suit set of dummy's REAL remaining hand
                     avail.append([ids(env.hands[env.dummy]), led, ids(o.current_available_cards_in_dummy_hand())])
+        # the same question asked for several hands in one state, each time on a fresh temporary copy (an agent looking at the
+        # seats it can see): seats that have not yet played to the trick hold equally many cards
+        for q in SEATS:
+            if q is not p and len(env.hands[q]) == len(hand):
+                avail.append([ids(env.hands[q]), led, ids(env.current_available_cards(set(env.hands[q])))])
+        avail.append([ids(hand), led, ids(env.current_available_cards(set(hand)))])
         if k.get('random_play'):
             ch = RandomPlay().play(set(hand), env)
             choices.append([ids(hand), led, int(ch)])
@@ -145,7 +151,19 @@ def feed(observers, oobs, c, p, first, k, accepted=True, active_before=None):
         except Exception:
             ok = False
         unchanged = osnap(o) == before
-        if ok and first and SEATS[i] is not dummy:
+        if (not ok) and accepted and k.get('late') and p is dummy and SEATS[i] is not dummy and o.dummy_hand is None:
+            # "late" case: the observer has not been shown dummy's hand yet and must refuse dummy's play; it is shown now and
+            # the same play is offered again
+            oobs[i]['ops'].append([c, SEATS.index(p)])
+            oobs[i]['obs'].append([ok, unchanged, proj(o)])
+            o.set_dummy_hand(set(C(x) for x in k['deal'][SEATS.index(dummy)]))
+            before = osnap(o)
+            try:
+                o.play_card_by_player(C(c), p); ok = True
+            except Exception:
+                ok = False
+            unchanged = osnap(o) == before
+        if ok and first and SEATS[i] is not dummy and not k.get('late'):
             dh = set(C(x) for x in k['deal'][SEATS.index(dummy)])
             dh.discard(C(c)) if p is dummy else None
             o.set_dummy_hand(dh)
